@@ -86,6 +86,7 @@ def work(job):
             doc=(con.doc or "").strip(),
         )
         sample_smt = None
+        undecided_searched = {}
         for ob in obs:
             rec = _ob_record(ob)
             rec["label"] = _label_of(ob.name)
@@ -96,6 +97,18 @@ def work(job):
                 reg = con.known.get(rec["label"]) or con.known.get(_clause_kind(ob.name))
                 if reg is not None:
                     rec["known_id"], rec["outside_region"] = _check_outside_region(E, con, fi, ob, reg)
+            if ob.status == "undecided" and not undecided_searched.get(con.key):
+                undecided_searched[con.key] = True
+                try:
+                    ns = R.native_search(E, con, fi, seed=seed, budget_s=10.0)
+                except Exception as ex:  # noqa
+                    ns = {"found": False, "why": "%s: %s" % (type(ex).__name__, ex)}
+                if ns.get("found"):
+                    rec["status"] = "refuted"
+                    rec["detail"] += " | undecided by the solvers; native search found an input on which the real function breaks its contract"
+                    rec["solver_output"] = rec["detail"]
+                    rec["replay"] = {"confirmed": True, "input": ns["input"], "observed": ns["observed"], "violated_clauses": ns["violated_clauses"],
+                                     "note": "native search over inputs generated from the contract's shapes (%d tried)" % ns["tried"]}
             if sample_smt is None and ob.status == "discharged" and ob.kind == "post":
                 s = z3.Solver()
                 s.add(*ob.pc)
@@ -202,7 +215,15 @@ def _replay(E, con, fi, ob, seed):
         if not blockers:
             break
         s.add(z3.Or(*blockers))
-    return {"confirmed": False, "attempts": attempts[-3:]}
+    # last resort: native search for a failing input of this function (no solver involved)
+    try:
+        ns = R.native_search(E, con, fi, seed=seed, budget_s=6.0)
+    except Exception as ex:  # noqa
+        ns = {"found": False, "why": "%s: %s" % (type(ex).__name__, ex)}
+    if ns.get("found"):
+        return {"confirmed": True, "input": ns["input"], "observed": ns["observed"], "violated_clauses": ns["violated_clauses"],
+                "note": "found by native search over inputs generated from the contract's shapes (%d tried); the solver's own model could not be replayed" % ns["tried"], "attempts": len(attempts)}
+    return {"confirmed": False, "attempts": attempts[-3:], "native_search": ns}
 
 
 def _check_outside_region(E, con, fi, ob, reg):
